@@ -1,6 +1,6 @@
 //go:build verif
 
-package transport
+package peer
 
 // C38 -- stream identifiers are unique per connection and parity-separated by role.
 //
@@ -16,26 +16,39 @@ import (
 	"sync"
 	"testing"
 
+	"github.com/postalsys/muti-metroo/internal/identity"
+	"github.com/postalsys/muti-metroo/internal/transport"
+
 	"github.com/postalsys/muti-metroo/internal/vmc"
 	"github.com/postalsys/muti-metroo/internal/vmc/sched"
 )
 
 type c38Replay struct {
+	Conn    bool  `json:"via_connection"`
 	Dialer  bool  `json:"dialer"`
 	Threads int   `json:"threads"`
 	Calls   int   `json:"calls"`
 	Choices []int `json:"choices"`
 }
 
-func c38Run(dialer bool, threads, calls int, c *vmc.Chooser) ([][]uint64, sched.Outcome) {
-	a := NewStreamIDAllocator(dialer)
+func c38Run(viaConn, dialer bool, threads, calls int, c *vmc.Chooser) ([][]uint64, sched.Outcome) {
+	var next func() uint64
+	if viaConn {
+		// a real Connection as the manager builds it (its frame-drain goroutines are idle)
+		conn := NewConnection(&verifPeerConn{dialer: dialer}, DefaultConnectionConfig(identity.AgentID{1}))
+		defer conn.Close()
+		next = conn.NextStreamID
+	} else {
+		a := transport.NewStreamIDAllocator(dialer)
+		next = a.Next
+	}
 	got := make([][]uint64, threads)
 	out := sched.Run(c, sched.Opts{}, func() {
 		for t := 0; t < threads; t++ {
 			t := t
 			sched.GoNamed(fmt.Sprintf("alloc%d", t), func() {
 				for k := 0; k < calls; k++ {
-					got[t] = append(got[t], a.Next())
+					got[t] = append(got[t], next())
 				}
 			})
 		}
@@ -71,9 +84,10 @@ func TestVerif_C38(t *testing.T) {
 	r.Rule = "all interleavings of T threads x K Next() calls on the real StreamIDAllocator (points before every atomic op and statement), for the dialer and the acceptor allocator; plus the first 65536 sequential ids per side; distinct = distinct per-thread id assignment"
 	var rp c38Replay
 	if r.ReplayInto(&rp) {
-		got, _ := c38Run(rp.Dialer, rp.Threads, rp.Calls, vmc.NewReplayChooser(rp.Choices))
+		got, _ := c38Run(rp.Conn, rp.Dialer, rp.Threads, rp.Calls, vmc.NewReplayChooser(rp.Choices))
 		c38Check(r, rp.Dialer, got, func() any { return rp })
-		r.Add("states", 1); r.Add("transitions", 1)
+		r.Add("states", 1)
+		r.Add("transitions", 1)
 		if err := r.Finish(); err != nil {
 			t.Fatal(err)
 		}
@@ -81,26 +95,31 @@ func TestVerif_C38(t *testing.T) {
 	}
 	type cfg struct{ threads, calls, bound int }
 	cfgs := vmc.Pick(r, []cfg{{2, 2, -1}, {3, 1, -1}, {3, 2, 3}}, []cfg{{2, 3, -1}, {3, 2, -1}, {3, 3, 4}, {4, 2, 4}})
-	for _, dialer := range []bool{true, false} {
-		for _, cf := range cfgs {
-			dialer, cf := dialer, cf
-			st := vmc.Explore(r, func(c *vmc.Chooser) {
-				got, out := c38Run(dialer, cf.threads, cf.calls, c)
-				if out.Deadlock || out.Horizon || out.Panic != nil {
-					r.HarnessError("C38 execution did not finish cleanly: %+v", out)
+	for _, viaConn := range []bool{false, true} {
+		for _, dialer := range []bool{true, false} {
+			for _, cf := range cfgs {
+				viaConn, dialer, cf := viaConn, dialer, cf
+				if viaConn && cf.threads*cf.calls > 4 && !r.Thorough() {
+					continue
 				}
-				c38Check(r, dialer, got, func() any { return c38Replay{dialer, cf.threads, cf.calls, c.Choices()} })
-			}, vmc.DFSOpts{Bound: cf.bound})
-			r.Add("evaluations", st.Executions)
-			r.Add("states", st.Executions)
-			r.Add("transitions", st.Points)
-			r.Add("traces_validated_against_impl", st.Executions)
-			r.Sample(map[string]any{"dialer": dialer, "threads": cf.threads, "calls": cf.calls, "preemption_bound(-1=unbounded)": cf.bound, "interleavings": st.Executions})
+				st := vmc.Explore(r, func(c *vmc.Chooser) {
+					got, out := c38Run(viaConn, dialer, cf.threads, cf.calls, c)
+					if out.Deadlock || out.Horizon || out.Panic != nil {
+						r.HarnessError("C38 execution did not finish cleanly: %+v", out)
+					}
+					c38Check(r, dialer, got, func() any { return c38Replay{viaConn, dialer, cf.threads, cf.calls, c.Choices()} })
+				}, vmc.DFSOpts{Bound: cf.bound})
+				r.Add("evaluations", st.Executions)
+				r.Add("states", st.Executions)
+				r.Add("transitions", st.Points)
+				r.Add("traces_validated_against_impl", st.Executions)
+				r.Sample(map[string]any{"via_connection": viaConn, "dialer": dialer, "threads": cf.threads, "calls": cf.calls, "preemption_bound(-1=unbounded)": cf.bound, "interleavings": st.Executions})
+			}
 		}
 	}
 	// sequential supplement
 	for _, dialer := range []bool{true, false} {
-		a := NewStreamIDAllocator(dialer)
+		a := transport.NewStreamIDAllocator(dialer)
 		seen := make(map[uint64]bool, 1<<16)
 		for i := 0; i < 1<<16; i++ {
 			id := a.Next()
@@ -120,17 +139,18 @@ func TestVerif_C38(t *testing.T) {
 // TestVerifRace_C38 is the free-running body for the separate -race pass.
 func TestVerifRace_C38(t *testing.T) {
 	for it := 0; it < 200; it++ {
-		a := NewStreamIDAllocator(it%2 == 0)
+		conn := NewConnection(&verifPeerConn{dialer: it%2 == 0}, DefaultConnectionConfig(identity.AgentID{1}))
 		var wg sync.WaitGroup
 		for g := 0; g < 4; g++ {
 			wg.Add(1)
 			go func() {
 				defer wg.Done()
 				for k := 0; k < 50; k++ {
-					a.Next()
+					conn.NextStreamID()
 				}
 			}()
 		}
 		wg.Wait()
+		conn.Close()
 	}
 }
